@@ -65,6 +65,12 @@ def run_case(data):
     ep.call('initiate_connection')
     ep.recv((b'' if client else wire.PREFACE) + wire.settings() + wire.settings(ack=True))
     limit = c.MAX_CLOSED_STREAMS
+    stream_limit = ch.pick([None, None, 2**31 - 1, 5000])
+    if stream_limit:
+        # an application that does not want to limit its peer: the tables must stay bounded all the same
+        ep.call('update_settings', {wire.S_MAX_CONCURRENT_STREAMS: stream_limit})
+        ep.recv(wire.settings(ack=True))
+        r.labels.add('local-stream-limit-raised')
     budget = tier['frames']
     delivered = 0
     closed_total = 0
@@ -109,6 +115,9 @@ def run_case(data):
             enc = Encoder()
             ep.call('initiate_connection')
             ep.recv((b'' if client else wire.PREFACE) + wire.settings() + wire.settings(ack=True))
+            if stream_limit:
+                ep.call('update_settings', {wire.S_MAX_CONCURRENT_STREAMS: stream_limit})
+                ep.recv(wire.settings(ack=True))
             live = set()
             next_peer = 2 if client else 1
             next_local = 1 if client else 2
@@ -262,7 +271,13 @@ def run_case(data):
         elif phase == 'header-list-size':
             # acknowledged MAX_HEADER_LIST_SIZE lowered to 2000, then a list within a few bytes of it
             hls = ch.pick([2000, 2000, 300, 0, 1, 15000])
-            o = ep.call('update_settings', {wire.S_MAX_HEADER_LIST_SIZE: hls})
+            # (announced alone, or together with other settings in the same SETTINGS frame)
+            new = {wire.S_MAX_HEADER_LIST_SIZE: hls}
+            if ch.chance(100):
+                new[wire.S_INITIAL_WINDOW_SIZE] = ch.pick([65535, 70000])
+            if ch.chance(60):
+                new[wire.S_MAX_FRAME_SIZE] = 16384
+            o = ep.call('update_settings', new)
             feed(wire.settings(ack=True), 1, 'header-list-size')
             if dead:
                 break
